@@ -244,8 +244,21 @@ def check_executemany(si):
 LEDGER_STMTS = ['SELECT count(*)', 'SELECT account, sum(position) GROUP BY account ORDER BY account', 'SELECT count(*) FROM OPEN ON 2020-01-15 CLOSE ON 2020-02-10',
                 'SELECT account, sum(position) FROM OPEN ON 2020-02-01 CLEAR GROUP BY account ORDER BY account', 'SELECT count(*) FROM CLOSE ON 2020-01-20', 'BALANCES FROM OPEN ON 2020-01-15',
                 'SELECT count(*) FROM #entries', 'SELECT date, balance WHERE account ~ "Checking"', 'SELECT count(*) FROM year = 2020 CLOSE', 'JOURNAL "Food" FROM CLOSE ON 2020-02-01',
-                'SELECT %s, narration FROM year = %s ORDER BY date', 'SELECT meta(%s), entry_meta(%s) WHERE any_meta(%s) IS NOT NULL']
+                'SELECT %s, narration FROM year = %s ORDER BY date', 'SELECT meta(%s), entry_meta(%s) WHERE any_meta(%s) IS NOT NULL',
+                # statements over another table than the default one, compiled on the same connection (the shell's path: Connection.compile)
+                'PRINT FROM year = 2020', 'SELECT account FROM #accounts ORDER BY account', 'PRINT FROM CLOSE ON 2020-02-01']
 LEDGER_PARAMS = {10: ('tag', 2020), 11: ('memo', 'ref', 'ref')}
+
+
+def _ledger_run(c, q, params):
+    """what the statement produces on connection c: rows, or the printed text of a PRINT statement (compiled through the connection, as the shell does)"""
+    if q.startswith('PRINT'):
+        import io
+        from beanquery import query_execute
+        out = io.StringIO()
+        query_execute.execute_print(c.compile(c.parse(q)), out)
+        return out.getvalue().splitlines()
+    return c.execute(q, params).fetchall()
 
 
 def check_ledger_history(hist):
@@ -256,11 +269,11 @@ def check_ledger_history(hist):
         q = LEDGER_STMTS[si]
         params = LEDGER_PARAMS.get(si)
         try:
-            exp = ledger.connect().execute(q, params).fetchall()
+            exp = _ledger_run(ledger.connect(), q, params)
         except Exception as e:
             return ('a statement executes on a fresh connection', {'ledger_history': [LEDGER_STMTS[i] for i in hist], 'step': step}, f'{type(e).__name__}: {e}', 'rows')
         try:
-            got = c.execute(q, params).fetchall()
+            got = _ledger_run(c, q, params)
         except Exception as e:
             return ('other executions in between never make an execution fail (ledger connection)', {'ledger_history': [LEDGER_STMTS[i] for i in hist], 'step': step}, f'{type(e).__name__}: {e}', exp[:3])
         if got != exp:
